@@ -286,6 +286,34 @@ func scribble(b []byte) {
 	}
 }
 
+// SetattrOne sets exactly one attribute that the reference does not model (atime, mtime, mode or owner).  Like
+// every successful SETATTR it is a stable acknowledgement: everything acknowledged before it is durable afterwards.
+func (x *Exec) SetattrOne(r Ref, which int) error {
+	var a nt.Sattr3
+	switch which % 4 {
+	case 0:
+		a.Atime = nt.Set_atime{Set_it: nt.SET_TO_CLIENT_TIME, Atime: nt.Nfstime3{Seconds: 5000000 + nt.Uint32(len(x.Log)), Nseconds: 3}}
+	case 1:
+		a.Mtime = nt.Set_mtime{Set_it: nt.SET_TO_CLIENT_TIME, Mtime: nt.Nfstime3{Seconds: 6000000 + nt.Uint32(len(x.Log)), Nseconds: 4}}
+	case 2:
+		a.Mode = nt.Set_mode3{Set_it: true, Mode: nt.Mode3(0400 + len(x.Log)%64)}
+	default:
+		a.Atime = nt.Set_atime{Set_it: nt.SET_TO_SERVER_TIME}
+	}
+	x.logf("SETATTR %s (%s only)", r.Desc, []string{"atime", "mtime", "mode", "atime=now"}[which%4])
+	var res nt.SETATTR3res
+	if err := x.call(func() { res = x.S.API().NFSPROC3_SETATTR(nt.SETATTR3args{Object: r.fh(), New_attributes: a}) }); err != nil {
+		return err
+	}
+	if err := x.status(res.Status, r.N != nil, r); err != nil {
+		return err
+	}
+	if r.N != nil && x.LastOK {
+		x.Unflushed = false
+	}
+	return nil
+}
+
 // Setattr: size nil = don't set. touch sets mode/uid/gid/times as well.
 func (x *Exec) Setattr(r Ref, size *uint64, touch bool) error {
 	var a nt.Sattr3
